@@ -34,6 +34,9 @@ static int m14_streq(const char *a, const char *b)
 
 int m14_classify(const char *value)
 {
+  /* shortcut by identity: the harness registered this very object as a NAMED zone string (it assumes/fixes its
+     content accordingly), so no byte comparison is needed when pdc.c passes the pointer through unchanged */
+  if (M14.named_tz && value == M14.named_tz) return M14_TZ_NAMED;
   if (m14_streq(value, m14_ambient)) return M14_TZ_AMBIENT;
   if (m14_streq(value, "UTC")) return M14_TZ_UTC;
   return M14_TZ_NAMED;
@@ -46,6 +49,7 @@ void m14_reset(int ambient_set)
   M14.n_setenv = M14.n_setenv_failed = M14.n_unsetenv = M14.n_tzset = 0;
   M14.n_mktime = M14.n_mktime_failed = M14.n_time_failed = M14.n_localtime_dirty = 0;
   m14_hint_valid = 0; m14_ms_valid = 0; m14_mk_valid = 0;
+  M14.named_tz = 0;
   M14.hint_midnight = 0;
   for (i = 0; i < M14_LOG; i++) {
     struct m14_mkcall *c = &M14.mk[i];
@@ -121,7 +125,8 @@ static int64_t m14_linear_part(int mday, int h, int mi, int s)
 {
   M_ASSERT(mday >= -1000 && mday <= 1000, "m14_model_mday_range");
   M_ASSERT(h >= -100000 && h <= 100000 && mi >= -100000 && mi <= 100000 && s >= -100000 && s <= 100000, "m14_model_hms_range");
-  return M14_MUL64(mday - 1, 86400) + M14_MUL64(h, 3600) + M14_MUL64(mi, 60) + s;
+  /* 1001*86400 + 100000*(3600 + 60 + 1) = 452586400: |sum| < 2^31 by the ranges above: computed modulo 2^32 (no overflow-check circuits), then sign extended */
+  return (int64_t) (int32_t) ((uint32_t) (mday - 1) * 86400u + (uint32_t) h * 3600u + (uint32_t) mi * 60u + (uint32_t) s);
 }
 
 /* LINEAR in mday, h, mi, s by construction (this is how mktime/timegm treat out-of-range fields):
@@ -146,7 +151,7 @@ int64_t m14_hint_civil(int y, int mon0, int mday, int h, int mi, int s)
 {
   M_ASSERT(y >= M14_YLO && y <= M14_YHI && mon0 >= 0 && mon0 <= 11 && mday >= 1 && mday <= m14_days_in_month(y, mon0)
            && h >= 0 && h < 24 && mi >= 0 && mi < 60 && s >= 0 && s < 60, "m14_hint_is_canonical");
-  M14.hint_midnight = m14_month_start_secs(y, mon0) + M14_MUL64(mday - 1, 86400);
+  M14.hint_midnight = m14_month_start_secs(y, mon0) + (int64_t) ((mday - 1) * 86400);
   m14_hint_t = M14.hint_midnight + (int64_t) (h * 3600 + mi * 60 + s);
   m14_hint_f[0] = y; m14_hint_f[1] = mon0; m14_hint_f[2] = mday; m14_hint_f[3] = h; m14_hint_f[4] = mi; m14_hint_f[5] = s;
   m14_hint_valid = 1;
